@@ -4,6 +4,7 @@ import common as C
 import absint as A
 import tmpl
 import cdecl
+import flow
 import tables as T
 from common import MirFn, sym_show, sym_walk
 
@@ -294,6 +295,35 @@ def run(ck, facts):
               "the union of the per-method result record is emitted under a condition on different values (%s) than the payload lines (%s): zero-sized payloads get an empty union and shift is_ok" % (sorted(cond_ids), sorted(line_ids)), C.loc(g))
     lits = C.str_lits(body)
     ck.expect(any(re.search(r"\{union_def\}\s*bool is_ok;", s) for s in lits), "R5", "c::gen_result_ty/flag-after-union", "", "is_ok no longer follows the union in the per-method record", C.loc(g))
+    # callers of gen_result_ty: the error payload handed over is decided by the return type's error alone, the success payload by its success type alone
+    ncall = 0
+    for cf in tool.fn_list:
+        if "hir" not in cf or cf.get("exp") or not cf["path"].startswith("diplomat_tool::c::"):
+            continue
+        cdefs = None
+        for n in C.walk(C.fn_body(cf)):
+            if n.get("k") == "mcall" and n.get("m") == "gen_result_ty" and len(n.get("a") or []) >= 3:
+                cdefs = cdefs or dict(flow.defs_of(cf))
+                ncall += 1
+                for pos, nm, other in ((2, "error", "SuccessType"),):
+                    seen_, todo, deps = set(), [n["a"][pos]], []
+                    while todo:
+                        e_ = todo.pop()
+                        for x in C.walk(e_):
+                            if x.get("k") == "match" and (x.get("sadt") or "").endswith(other):
+                                deps.append(x.get("ln"))
+                            if x.get("k") == "local" and x.get("id") not in seen_:
+                                seen_.add(x.get("id"))
+                                d_ = cdefs.get(x.get("id"))
+                                if d_ and d_[0] in ("expr", "destructure") and d_[1] is not None:
+                                    # a binding of a match arm's own pattern is not a dependency on the scrutinee's other cases; a let-destructure of a match result is
+                                    if d_[0] == "expr" or any(ls.get("k") == "letst" and x.get("id") in C.pat_bind_ids(ls["pat"]) for ls in C.walk(C.fn_body(cf))):
+                                        todo.append(d_[1])
+                    ck.expect(not deps, "R5", "%s/gen_result_ty-%s-independent#%d" % (C.norm_path(cf["path"]).split("::")[-1], nm, ncall), "the %s payload does not depend on the success type" % nm,
+                              "the %s payload handed to gen_result_ty is chosen by a match on %s: for some success shapes (e.g. a write-returning method) the record loses its `err` member and C reads "
+                              "the flag at the wrong offset" % (nm, other), C.loc(cf, n.get("ln")))
+    if ncall < 1:
+        ck.bad("R5", "c::gen_result_ty/callers-floor", "no caller of gen_result_ty found in the C backend")
     fl = tmpl.flat_file("dart/result.dart.jinja", resolve_includes=False)
     ck.expect(re.search(r"external ⟦name⟧Union union;.*?@ffi\.Bool\(\)\s*external bool isOk;", fl, re.S) is not None, "R5", "dart/result", "union; @ffi.Bool isOk", "Dart result record shape changed", "tool/templates/dart/result.dart.jinja")
     for rel, exp in (("kotlin/Result.kt.jinja", ["union", "isOk"]), ("kotlin/Option.kt.jinja", ["value", "isOk"])):
